@@ -2,6 +2,7 @@ package engine
 
 import (
 	"fmt"
+	"sync"
 
 	"verif/mc/spec"
 )
@@ -12,7 +13,8 @@ import (
 // the object is re-read through Get and must equal the model (otherwise
 // bad is called once for that chunk).
 func Iterate[T comparable, P Object[T]](im *Impl[T, P], dims []Dim, bg spec.Assignment, workers int,
-	fn func(idx int, a spec.Assignment, o *T), bad func(idx int, a spec.Assignment, why string), stop func() bool) {
+	fn func(idx int, a spec.Assignment, o *T), bad func(idx int, a spec.Assignment, why string), stop func() bool, judgeUnmodelled ...bool) {
+	judgeAnyway := len(judgeUnmodelled) > 0 && judgeUnmodelled[0]
 	ver := im.Ver
 	n := 1
 	for _, d := range dims {
@@ -44,7 +46,20 @@ func Iterate[T comparable, P Object[T]](im *Impl[T, P], dims []Dim, bg spec.Assi
 			}
 		}
 		for idx := lo; idx < hi; idx++ {
-			fn(idx, a, &o)
+			// the object reached by the Set path must read back as the model state; if it does not (a Set/Get
+			// fault, C07's finding) the state is not judged against the model, unless the caller's predicate
+			// does not need the model (judgeAnyway: "every reachable object ...")
+			modelled := true
+			for mi, m := range ver.Metrics {
+				if v, err := P(&o).Get(m.Abv); err != nil || v != m.Values[a[mi]] {
+					modelled = false
+					bad(idx, a, "Get("+m.Abv+") = "+v+", last value Set was "+m.Values[a[mi]])
+					break
+				}
+			}
+			if modelled || judgeAnyway {
+				fn(idx, a, &o)
+			}
 			if idx+1 == hi {
 				break
 			}
@@ -63,13 +78,6 @@ func Iterate[T comparable, P Object[T]](im *Impl[T, P], dims []Dim, bg spec.Assi
 				if dg[j] != 0 {
 					break
 				}
-			}
-		}
-		for mi, m := range ver.Metrics {
-			v, err := P(&o).Get(m.Abv)
-			if err != nil || v != m.Values[a[mi]] {
-				bad(hi-1, a, "after odometer walk Get("+m.Abv+") = "+v+", model "+m.Values[a[mi]])
-				return
 			}
 		}
 	})
@@ -228,7 +236,12 @@ func iterBad[T comparable, P Object[T]](r *Report, im *Impl[T, P], dims []Dim, b
 		}
 		return ""
 	}
+	_ = pred
+	var once sync.Once
 	return func(idx int, a spec.Assignment, why string) {
-		iterViolation(r, im, dims, bg, 16, idx, a, kind, "v"+ver.Name+"/object-reached-by-Set-calls-does-not-read-back", "every Get equals the value last Set", why, nil, pred)
+		r.AddExtra("v"+ver.Name+"_states_not_judged_because_the_object_built_by_Set_does_not_read_back", 1)
+		once.Do(func() {
+			r.NotExhaustive("v" + ver.Name + ": some states were not judged: the object built by Set does not read back as the values set (" + why + " at " + ver.Full(a) + "); that is property C07's finding, not this check's")
+		})
 	}
 }
